@@ -21,3 +21,6 @@ mut("C04-5", "C04", CP, """		exists, err = proxy.Cache.Exists(ctx, desc)
 		return mountOrCopyNode(ctx, src, dst, desc, opts)""", ["copyGraph$1/call:copyNode", "copyGraph$1/call:mountOrCopyNode", "requires:holds-permit"], "copy performed after giving the permit back")
 mut("C04-6", "C04", CP, "	if opts.PostCopy != nil {\n		return opts.PostCopy(ctx, desc)\n	}\n	return nil\n}\n\n// copyCachedNodeWithReference", "	if opts.PostCopy != nil {\n		opts.PostCopy(ctx, desc)\n	}\n	return nil\n}\n\n// copyCachedNodeWithReference", ["copyNode/post:callback-error-identity"], "PostCopy error dropped")
 mut("C04-7", "C04", "internal/status/tracker.go", "	return status.(chan struct{}), !exists", "	return status.(chan struct{}), !exists || true", ["TryCommit/post:single-owner"], "every caller becomes owner")
+mut("C04-m1", "C04", "copy.go", "		if !mountFailed {\n			// mounted, success", "		if mountFailed {\n			// mounted, success", ["mountOrCopyNode/call:opts.OnMounted#0/requires:mounted-hook-only-when-no-content-was-requested"], "OnMounted reported for blobs that had to be copied")
+mut("C04-m2", "C04", "copy.go", "			if i < len(sourceRepositories)-1 {\n				// If this is not the last one", "			if i < 0 {\n				// If this is not the last one", ["mountOrCopyNode$1/"], "every failed mount source triggers PreCopy and a fetch (several PreCopy per node)")
+mut("C04-m3", "C04", "copy.go", "		if err := mounter.Mount(ctx, desc, sourceRepository, getContent); err != nil && !errors.Is(err, skipSource) {", "		if err := mounter.Mount(ctx, desc, sourceRepositories[0]+sourceRepository[:0], getContent); err != nil && !errors.Is(err, skipSource) {", ["mountOrCopyNode/call:.Mount#0/requires:mount-of-this-blob-from-the-listed-repository"], "always mounts from the first source repository")
